@@ -457,6 +457,9 @@ def run(ctx):
     split_paren = bool(re.search(r"def splitLiteralParen : Bool := true", gen_text))
     X.SPLIT_SAFE_RENDER[0] = not split_paren
     ctx.cov["split_literal_parenthesised"] = split_paren
+    # does it parenthesise a relational/logical index operand (fixes/C07-8)?  If not such (ill-typed) indices are not generated
+    index_paren = not re.search(r"def indexParenOps : List String := \[\]", gen_text)
+    ctx.cov["index_operand_parenthesised"] = index_paren
     try:
         # 1. corpus: minimal schemas for every defect found so far, at every width
         cdir = os.path.join(VERIF, "corpus", "C07")
@@ -476,6 +479,7 @@ def run(ctx):
             if time.time() - t0 > (60 if quick else 900):
                 break
             g = X.Gen(ctx.rng, feats, split_safe=not split_paren)
+            g.simple_index = not index_paren
             sc = g.schema()
             src = X.schema_src(sc, ctx.rng)
             ctx.hist("inputs", "generated")
